@@ -22,14 +22,24 @@ import objtypes                     # real module
 _col = gen._col
 
 
-def data_snapshot(e):
+def data_snapshot(e, keep=None):
   """{table: (row_ids, {col: [encoded values]})} for data columns of all tables (metadata too)."""
   out = {}
+  derived = summary_tables(e)
   for t in sorted(e.tables):
+    if t in derived: continue        # derived from their source table, like formula results (C12)
     td = e.fetch_table(t, formulas=False)
+    sch = e.schema.get(t)
+    trig = {c.colId for c in sch.columns.values() if c.formula and not c.isFormula} if sch else set()
+    trig.discard(keep)               # trigger-formula columns recalculate by design (C15)
     out[t] = (list(td.row_ids),
-              {c: [objtypes.encode_object(v) for v in vals] for c, vals in td.columns.items()})
+              {c: [objtypes.encode_object(v) for v in vals] for c, vals in td.columns.items()
+               if c not in trig or t.startswith("_grist_")})
   return out
+
+
+def summary_tables(e):
+  return {r["tableId"] for r in eng.meta_records(e, "_grist_Tables") if r["summarySourceTable"]}
 
 
 def col_info(e, table_id, col_id):
@@ -98,12 +108,12 @@ def compare(exp, post, table_id, col_id):
 def check_rename(e, table_id, col_id, renames):
   """Applies [RenameChoices] on the real engine and evaluates the clauses. -> (failures, exc)"""
   info = col_info(e, table_id, col_id)
-  pre = data_snapshot(e)
+  pre = data_snapshot(e, col_id)
   try:
     eng.apply(e, [["RenameChoices", table_id, col_id, renames]]); exc = None
   except Exception as ex:
     exc = ex
-  post = data_snapshot(e)
+  post = data_snapshot(e, col_id)
   if exc is not None:
     fails = [("C39.completes", {"raised": "%s: %s" % (type(exc).__name__, str(exc)[:160]),
                                 "renames": renames, "type": info["type"],
@@ -243,12 +253,14 @@ class C39Monitor(explore.Monitor):
     rng = g.rng
     if rng.random() < 0.45:
       cands = []
+      derived = summary_tables(e)
       for t in eng.user_tables(e):
+        if t in derived: continue
         for c in e.schema[t].columns.values():
           if c.type in ("Choice", "ChoiceList"): cands.append((t, c.colId))
       if cands:
         t, c = rng.choice(cands)
-        keys = rng.sample(NAMES, rng.randint(0, 3))
+        keys = rng.sample(NAMES + [""], rng.randint(0, 3))
         m = {k: rng.choice(NAMES + [""]) for k in keys}
         if keys and rng.random() < 0.3:      # swap / cycle
           ks = list(keys); m = {k: ks[(i + 1) % len(ks)] for i, k in enumerate(ks)}
@@ -261,14 +273,15 @@ class C39Monitor(explore.Monitor):
       _, t, c, m = bundle[0]
       info = col_info(e, t, c) if isinstance(t, str) and isinstance(c, str) else None
       if (info and info["type"] in ("Choice", "ChoiceList") and isinstance(m, dict)
+          and t not in summary_tables(e)
           and all(isinstance(k, str) and isinstance(v, str) for k, v in m.items())):
-        st["case"] = (t, c, m, info, data_snapshot(e))
+        st["case"] = (t, c, m, info, data_snapshot(e, c))
 
   def after(self, st, e, bundle, group, exc):
     if not st.get("case"): return []
     t, c, m, info, pre = st["case"]
     st["case"] = None
-    post = data_snapshot(e)
+    post = data_snapshot(e, c)
     if exc is not None:
       fails = [("C39.completes", {"raised": "%s: %s" % (type(exc).__name__, str(exc)[:160]),
                                   "renames": m, "type": info["type"]})]
@@ -311,7 +324,9 @@ def main():
     "non-matching key and a 3-cycle; random part: seeded histories in which RenameChoices with "
     "random mappings (incl. swaps/cycles) alternates with edits, type changes and removals; "
     "not a proof" % (CHOICE_CELLS, LIST_CELLS, KEYS, VALS),
-    "mappings are str -> str; formula columns are outside the frame clause (they recalculate); "
+    "mappings are str -> str; the column belongs to a user table that is not a summary table; "
+    "formula columns, other trigger-formula columns and summary tables are outside the frame clause (they are recalculated / "
+    "regrouped from the renamed data; C12 covers them); "
     "filters are compared as parsed JSON"]
   rep.coverage["rule"] = (
     "one evaluation = one bundle [RenameChoices] applied to the real engine and compared with the "
